@@ -72,7 +72,7 @@ def run(M, rep, tier, only=None):
     # ---- R5 (shared with C11.R6): what flush() persists goes to the file that was named
     from .common import run_shared
     from . import c11
-    run_shared(c11, M, rep, tier, {"C11.R6": "C17.R5"})
+    run_shared(c11, M, rep, tier, {"C11.R6": "C17.R5", "C11.R4": "C17.R6"})
 
 
 # HDF5 property-list operations and what they mean for "flushed data can be opened after a kill" (HDF5 reference manual):
